@@ -65,6 +65,12 @@ func c20Classify(b []byte) (string, string) {
 	if p.Kind != icbor.KMap {
 		return "not-sign1", "payload item is a " + p.Kind.String() + ", not a map"
 	}
+	// a claims map: labels are integers or text strings
+	for _, pr := range p.Pairs {
+		if _, isInt := pr[0].Int(); !isInt && pr[0].Kind != icbor.KText && !isHugeInt(pr[0]) {
+			return "not-sign1", "payload map has a label that is neither an integer nor a text string: " + icbor.Diag(pr[0])
+		}
+	}
 	return "sign1", ""
 }
 
@@ -175,6 +181,11 @@ func TestC20_EnvelopeGrid(t *testing.T) {
 	st.Exhaustive = true
 	st.Require = []string{"accepted", "rejected", "tag", "arity", "element", "payload", "trailing", "vector", "transcoded", "header-x-payload", "cose-kind"}
 	defer st.Flush(t)
+	registerMu.Lock()
+	defer registerMu.Unlock()
+	restore := psatoken.VerifCheckpointProfiles()
+	defer restore()
+	registerExtStyles()
 	accepted := 0
 	run := func(desc, class string, tok []byte, nontrivial bool) {
 		in := c20In{desc, tok}
@@ -409,6 +420,45 @@ func TestC20_EnvelopeGrid(t *testing.T) {
 					}
 				}
 			}
+			// the four correct elements in an INDEFINITE-length array, followed
+			// by further bytes after the break, or with a fifth element
+			{
+				ind := icbor.Encode(icbor.Tag(18, icbor.Arr(elems()...).WithIndef()))
+				for _, tr := range [][]byte{{0x00}, {0xff}, {0xf6}, {0x40}, {0xd2, 0x84}, good} {
+					run(fmt.Sprintf("%sindefinite-array+trailing=%x", pre, tr[:min(len(tr), 4)]), "trailing", append(append([]byte{}, ind...), tr...), true)
+				}
+				five := append(elems(), icbor.Bstr([]byte{1}))
+				run(pre+"indefinite-array-5-elements", "arity", icbor.Encode(icbor.Tag(18, icbor.Arr(five...).WithIndef())), true)
+				run(pre+"indefinite-array-3-elements", "arity", icbor.Encode(icbor.Tag(18, icbor.Arr(elems()[:3]...).WithIndef())), true)
+				run(pre+"indefinite-array-no-break", "truncation", ind[:len(ind)-1], true)
+			}
+			// payloads that are maps with a label that is neither an integer
+			// nor a text string (not a claims map), for the built-in profiles
+			// and for a registered extension profile whose decoder skips what
+			// it does not know
+			for oi, odd := range []*icbor.Node{icbor.Bool(false), icbor.Bool(true), icbor.Null(), icbor.Undef(), icbor.F64(1.5), icbor.Simple(32), icbor.Tag(1, icbor.U(0)), icbor.Bstr([]byte{1}), icbor.Arr(), icbor.Map()} {
+				for _, ext := range []bool{false, true} {
+					cn, _, _ := icbor.Read(claims)
+					if ext {
+						if p != P2 {
+							continue
+						}
+						var ps [][2]*icbor.Node
+						for _, pr := range cn.Pairs {
+							if k, _ := pr[0].Int(); k == 265 {
+								pr = icbor.P(icbor.U(265), icbor.Tstr(ExtP2Name))
+							}
+							ps = append(ps, pr)
+						}
+						cn = icbor.Map(ps...)
+					}
+					cn.Pairs = append(cn.Pairs, icbor.P(odd, icbor.U(1)))
+					pl := icbor.Encode(cn)
+					e := elems()
+					e[2], e[3] = icbor.Bstr(pl), icbor.Bstr(sigOver(pl))
+					run(fmt.Sprintf("%spayload-label#%d/ext=%v", pre, oi, ext), "payload", icbor.Encode(icbor.Tag(18, icbor.Arr(e...))), true)
+				}
+			}
 			// the (correct) envelope in a TEXT transport encoding: base64 in its
 			// four alphabets / paddings, hex, with line breaks or a data: prefix
 			for name, txt := range map[string]string{
@@ -540,4 +590,9 @@ func smallUintsOf(b []byte) *icbor.Node {
 		it[i] = icbor.U(uint64(x))
 	}
 	return icbor.Arr(it...)
+}
+
+// isHugeInt: an integer label outside int64 (still an integer).
+func isHugeInt(n *icbor.Node) bool {
+	return n.Kind == icbor.U(0).Kind || n.Kind == icbor.NintArg(0).Kind
 }
